@@ -25,6 +25,7 @@ class IBM:
         self.age = kwargs.get("age", False)
         self.lifetime = kwargs.get("lifetime")  # seconds
         self.weight_from = kwargs.get("weight_from")
+        self.weight_from_position = kwargs.get("weight_from_position", False)  # state that depends on where the particle is when the IBM runs
         self.log = kwargs.get("log", True)
         self.dtsec = float(modules["time"].dt / np.timedelta64(1, "s"))
         self.ncalls = 0
@@ -53,6 +54,8 @@ class IBM:
             st["age"] = st["age"] + self.dtsec
         if self.weight_from:
             st["weight"] = st["weight"] + 0.01 * st[self.weight_from]
+        if self.weight_from_position:
+            st["weight"] = st["weight"] + 1.0e-3 * st.X + 0.7e-3 * st.Y + 1.0e-4 * st.Z
         if self.lifetime is not None:
             st["alive"] = st["alive"] & (st["age"] < self.lifetime - 0.5)
         if step in self.kill:
